@@ -17,7 +17,10 @@ Open Scope Z_scope.
 Inductive dop :=
 | DO (c : nat) (o : op) (b : Z) (d : option Z)
 | DPause (c : nat) (b : Z)        (* the client stops reading *)
-| DResume (c : nat) (b : Z).      (* the client reads again *)
+| DResume (c : nat) (b : Z)       (* the client reads again *)
+| DCut (c : nat) (o : op) (b : Z) (d : option Z).
+    (* the client sent o and disconnected without waiting for the reply (the disconnect itself
+       follows as a DO .. ODisc); d: the reply arrived all the same *)
 
 Inductive case :=
 | CHist (det : bool) (buf : Z) (ops : list dop) (outs : list (list (xmsg * Z))) (drained : list bool)
@@ -25,7 +28,7 @@ Inductive case :=
 | CCrash (race : bool).           (* the harness process died: data race reported / panic *)
 
 Definition hops (ops : list dop) : list hop :=
-  flat_map (fun o => match o with DO c o b d => [mkHop c o b d] | _ => [] end) ops.
+  flat_map (fun o => match o with DO c o b d | DCut c o b d => [mkHop c o b d] | _ => [] end) ops.
 
 Definition hist_of (buf : Z) (ops : list dop) (outs : list (list (xmsg * Z))) (drained : list bool) : history :=
   mkHist buf (hops ops) outs drained.
@@ -107,13 +110,22 @@ Definition make_room (paused : list nat) (s : rstate) (x : nat) : option rstate 
   | Some _ => if mem_conn x paused then None else Some (step (step s (LDeliver x)) (LTake x))
   end.
 
-(** run connection c's goroutine until its operation is over *)
-Fixpoint drive (fuel : nat) (paused : list nat) (s : rstate) (c : nat) : option rstate :=
+(** run connection c's goroutine until its operation is over; if the session's
+    context was cancelled in flight: [giveup] says whether the reply was seen,
+    and the run goes on until the deferred UnsubscribeAll is done (the
+    forwarder may hand over what the client received until the loop returns) *)
+Fixpoint drive (fuel : nat) (paused : list nat) (s : rstate) (c : nat) (giveup : bool) : option rstate :=
   match fuel with
   | O => None
   | S f =>
       match c_pc (r_cs s c) with
-      | [] => Some s
+      | [] =>
+          if mem_conn c (r_cancel s) then
+            match force (force_fuel s c) s c (obs_total c) with
+            | Some s1 => drive f paused (step s1 (LRun c)) c giveup
+            | None => None
+            end
+          else Some s
       | IPub e t (c' :: rem) :: _ =>
           (* Go's map iteration order is free: the copies that arrived were handed over in
              the order they arrived; a copy that did not arrive was dropped on a full queue,
@@ -122,31 +134,32 @@ Fixpoint drive (fuel : nat) (paused : list nat) (s : rstate) (c : nat) : option 
           let obs := obs_order c' (ev_id e) in
           let dropped := List.map fst (filter (fun kv => sub_matches e (snd kv) && negb (mem_str (fst kv) obs)) m) in
           let room := (r_buf s - length (c_q (r_cs s c')))%nat in
-          drive f paused (step s (LVisit c c' (firstn room obs ++ dropped ++ skipn room obs))) c
+          drive f paused (step s (LVisit c c' (firstn room obs ++ dropped ++ skipn room obs))) c giveup
       | IVisit e t c' ((sub, fs) :: _) :: _ =>
           if sub_matches e fs then
             if mem_str sub (obs_order c' (ev_id e)) then
               match make_room paused s c' with
-              | Some s1 => drive f paused (step s1 (LRun c)) c
+              | Some s1 => drive f paused (step s1 (LRun c)) c giveup
               | None => None
               end
             else if (mem_conn c' discs || is_sentinel e) && Nat.leb (obs_total c') (ev_count (flow (r_cs s c'))) then
               (* everything c' ever received is already on its way, and c' is disconnected
                  later (or this is a flush event published while the harness was finishing):
                  the copy is lost either here (full queue) or when the session ends *)
-              drive f paused (step s (LRun c)) c
+              drive f paused (step s (LRun c)) c giveup
             else
               (* not received: must have been dropped, so the queue must be full even
                  though the forwarder ran as late as possible *)
-              if Nat.ltb (length (c_q (r_cs s c'))) (r_buf s) then None else drive f paused (step s (LRun c)) c
-          else drive f paused (step s (LRun c)) c
+              if Nat.ltb (length (c_q (r_cs s c'))) (r_buf s) then None else drive f paused (step s (LRun c)) c giveup
+          else drive f paused (step s (LRun c)) c giveup
       | IEose _ :: _ | IOk _ :: _ | ICount _ :: _ =>
+          if giveup && mem_conn c (r_cancel s) then drive f paused (step s (LSkip c)) c giveup else
           let k := events_before_reply (out_x c) (reply_count (c_out (r_cs s c))) 0 in
           match force (force_fuel s c) s c k with
-          | Some s1 => drive f paused (step s1 (LRun c)) c
+          | Some s1 => drive f paused (step s1 (LRun c)) c giveup
           | None => None
           end
-      | _ => drive f paused (step s (LRun c)) c
+      | _ => drive f paused (step s (LRun c)) c giveup
       end
   end.
 
@@ -171,11 +184,21 @@ Fixpoint sim (conns : list nat) (ops : list dop) (paused : list nat) (s : rstate
               match s2 with
               | None => None
               | Some s2 =>
-                  match drive 3000 paused (step s2 (LOp c o)) c with
+                  match drive 3000 paused (step s2 (LOp c o)) c false with
                   | Some s3 => sim conns ops' paused s3
                   | None => None
                   end
               end
+          end
+      end
+  | DCut c o b d :: ops' =>
+      match force_all s conns b with
+      | None => None
+      | Some s1 =>
+          let giveup := match d with None => true | Some _ => false end in
+          match drive 3000 paused (step (step s1 (LOp c o)) (LOp c ODisc)) c giveup with
+          | Some s3 => sim conns ops' paused s3
+          | None => None
           end
       end
   end.
@@ -218,7 +241,7 @@ Definition model_agrees (buf : Z) (ops : list dop) (outs : list (list (xmsg * Z)
   | None => false
   | Some s0 =>
       let conns := seq 0 (length outs) in
-      let discs := flat_map (fun o => match o with DO c ODisc _ _ => [c] | _ => [] end) ops in
+      let discs := flat_map (fun o => match o with DO c ODisc _ _ | DCut c _ _ _ => [c] | _ => [] end) ops in
       match sim outs discs conns ops [] s0 with
       | None => false
       | Some s1 =>
